@@ -45,7 +45,9 @@ CLAIM = {
             "the sampled environment differential and the static census, not by proof; trusted: probe components, canonicaliser, "
             "sub-process orchestration, dill, pandas/numpy",
 }
-RULE = ("env: generated programs (2-8 minimum steps quick / 2-12 thorough, population 0-16 + births, both clocks, fractional "
+RULE = ("env: corpus first (hand-picked rich programs, the F-AB regression, and the repository's own example models "
+        "vivarium.examples.disease_model and vivarium.examples.boids - the latter with the global numpy seed it draws from "
+        "fixed as part of the program); then generated programs (2-8 minimum steps quick / 2-12 thorough, population 0-16 + births, both clocks, fractional "
         "steps, durations that are no multiple of the step) x 8 (quick: 3 sub-processes) / 24 (thorough: 6 sub-processes) environments grouped into fresh "
         "sub-processes by PYTHONHASHSEED, 3 programs per sub-process (a failure is re-run alone, or recorded with its process history); distinct = distinct program; trivial = empty population and no births")
 ASSUMPTIONS = [
@@ -64,6 +66,8 @@ TRUSTED = [
     "(theorem C01_new_column_order_irrelevant explains why it may differ)",
     "per-step observation under run()/take_steps() is obtained by an INSTANCE attribute `step` set on the context by the "
     "harness (calls the class's step, then hashes); component instances of the context are the ones the harness built",
+    "components of a context restored from a backup are found by capability (any attribute offering list_components()), "
+    "not by attribute name; when none is found only the schedule correspondence is skipped",
     "the census is an AST heuristic (names bound to set(...)/set literals/Set annotations inside one file)",
 ]
 LEVEL_NOTE = ("PARTIAL: the Coq theorems cover the schedule under the three drivers and the named set-order channels; that no "
@@ -131,6 +135,7 @@ def gen_case(rng, tier, hashseeds=None):
 BATCH_PROGRAMS = 3      # programs per sub-process (they share the batch's PYTHONHASHSEEDs); start-up dominates the cost
 _BATCH = {"cases": [], "hashseeds": None}
 _RERUN = [False]
+_LAST_FAIL = {}          # program -> the environment that first differed (guides shrink)
 
 
 class _Slice:
@@ -259,6 +264,7 @@ def evaluate(case, futs):
             ok = False
             msg = f"{why}: environment {json.dumps(e)} vs reference {json.dumps(ref_env)}"
             obs.update(failing_env=e, first_difference=why)
+            _LAST_FAIL[json.dumps(program, sort_keys=True)] = e
     # ---- schedule cases for Coq: one per driver kind ----
     coq = None
     rows0 = next((o["rows0"] for o in outs if "rows0" in o), None)
@@ -276,7 +282,8 @@ def evaluate(case, futs):
             if not o["trace"]:
                 continue
             clock0 = o["trace"][0][2:4]
-            lit, why_not = probes.sched_case(program, drv, clock0, rows0, o["trace"], o["actions"], o["rows"], o["clocks"])
+            lit, why_not = probes.sched_case(program, drv, clock0, rows0, o["trace"], o["actions"], o["rows"], o["clocks"],
+                                             with_init=program["pop"] < 4000)
             if lit is not None:
                 lits.append(lit)
             else:
@@ -288,6 +295,111 @@ def evaluate(case, futs):
     tags = probes.program_tags(program) + tuple(f"driver:{e['driver']}" for e in envs) + \
         tuple(f"pollute:{e['pollute']}" for e in envs) + tuple(f"churn:{e.get('churn', 0)}" for e in envs) + (f"steps:{min(len(ref.get('digests', [])), 12)}",)
     return Result(ok=ok, msg=msg, coq=coq, key=_key(program) if nontrivial else None, obs=obs, tags=tags)
+
+
+OPTIONAL_KINDS = ["obs", "snoozer", "residual", "risk", "condition", "births", "tables", "stepmod", "mortality", "pipes"]
+
+
+def _program_ok(p):
+    kinds = [c["kind"] for c in p["components"]]
+    if p.get("example"):
+        return True
+    if "mortality" in kinds and "pipes" not in kinds:
+        return False
+    if "risk" in kinds and "tables" not in kinds:
+        return False
+    if any(c["kind"] == "risk" and c.get("use_exposure") for c in p["components"]) and "pipes" not in kinds:
+        return False
+    if any(c["kind"] == "condition" and c.get("p_inc") is None for c in p["components"]) and "tables" not in kinds:
+        return False
+    if any(c["kind"] == "obs" and c.get("have_cond") for c in p["components"]) and "condition" not in kinds:
+        return False
+    return True
+
+
+def shrink_program(p):
+    """Smaller programs: fewer steps, fewer simulants, one optional component less, traits switched off."""
+    import copy
+    if p["n_min_steps"] > 1:
+        for n in sorted({1, p["n_min_steps"] // 2, p["n_min_steps"] - 1}):
+            if 1 <= n < p["n_min_steps"]:
+                yield dict(copy.deepcopy(p), n_min_steps=n)
+    if p["pop"] > 1:
+        for n in sorted({1, 2, p["pop"] // 2}):
+            if n < p["pop"]:
+                yield dict(copy.deepcopy(p), pop=n)
+    if p.get("example"):
+        return
+    for kind in OPTIONAL_KINDS:
+        idx = [i for i, c in enumerate(p["components"]) if c["kind"] == kind]
+        if idx:
+            q = copy.deepcopy(p)
+            del q["components"][idx[-1]]
+            if kind == "condition":
+                for c in q["components"]:
+                    if c["kind"] == "obs":
+                        c["have_cond"] = False
+            if _program_ok(q):
+                yield q
+    for i, c in enumerate(p["components"]):
+        for key, off in (("special", []), ("nan_bin", None), ("nan_exposure", 0), ("empty_calls", False), ("triggered", False),
+                         ("mods", []), ("pafs", []), ("schedule", None), ("use_exposure", False), ("snooze", False)):
+            if c.get(key) and c.get(key) != off:
+                q = copy.deepcopy(p)
+                if key == "schedule":
+                    first = sorted(c["schedule"])[0]
+                    if len(c["schedule"]) == 1:
+                        continue
+                    q["components"][i]["schedule"] = {first: c["schedule"][first]}
+                else:
+                    q["components"][i][key] = off
+                yield q
+    for key, off in (("end_frac", 0), ("std", None), ("default_strat", None), ("crn", False)):
+        if p.get(key):
+            q = dict(copy.deepcopy(p), **{key: off})
+            if key == "crn":
+                for c in q["components"]:
+                    if c["kind"] == "base_pop":
+                        c["crn"] = False
+            yield q
+
+
+def shrink_case(case):
+    """Variants for core's greedy minimiser (each costs a few sub-processes, so the big cuts come first): only the
+    reference and the environment that differed; no process history; then smaller programs."""
+    import copy
+    fail = _LAST_FAIL.get(json.dumps(case["program"], sort_keys=True))
+    n_env = sum(len(g["envs"]) for g in case["groups"])
+    if case.get("prefix"):
+        c = copy.deepcopy(case)
+        del c["prefix"]
+        yield c
+    if fail is not None and n_env > 2:
+        c = copy.deepcopy(case)
+        c.pop("prefix", None)
+        ref = c["groups"][0]["envs"][0]
+        e = {k: v for k, v in fail.items() if k != "hashseed"}
+        if fail.get("hashseed") == c["groups"][0]["hashseed"]:
+            c["groups"] = [{"hashseed": c["groups"][0]["hashseed"], "envs": [ref, e]}]
+        else:
+            c["groups"] = [{"hashseed": c["groups"][0]["hashseed"], "envs": [ref]}, {"hashseed": fail["hashseed"], "envs": [e]}]
+        yield c
+    if n_env == 2:
+        for g in case["groups"]:
+            for i, e in enumerate(g["envs"]):
+                if g is case["groups"][0] and i == 0:
+                    continue
+                for key, off in (("prior", 0), ("pollute", "none"), ("churn", 0)):
+                    if e.get(key, off) != off:
+                        c = copy.deepcopy(case)
+                        gi = case["groups"].index(g)
+                        c["groups"][gi]["envs"][i][key] = off
+                        yield c
+    for q in shrink_program(case["program"]):
+        c = copy.deepcopy(case)
+        c["program"] = q
+        _LAST_FAIL.setdefault(json.dumps(q, sort_keys=True), fail)
+        yield c
 
 
 def corpus():
@@ -305,7 +417,7 @@ def corpus():
 def streams(tier):
     b = _BOOST[0]
     return [Stream(name="env", imports="From Viv Require Import Common Sim.", check="check_scheds",
-                   gen=make_gen(tier), run=run_case, n_quick=15 * b, n_thorough=42 * b, corpus=corpus,
+                   gen=make_gen(tier), run=run_case, n_quick=15 * b, n_thorough=42 * b, corpus=corpus, shrink=shrink_case,
                    doc="environment differential + schedule correspondence")]
 
 
